@@ -351,6 +351,78 @@ func init() {
 }
 
 func init() {
+	register(&Rule{ID: "C20.registryfree", Props: []string{"C20"}, Floor: 3,
+		Doc: "unbonding and redelegation queries enumerate the queues / indexes, never the asset registry",
+		Run: func(e *Engine, r *RuleRun) {
+			// An alliance can be deleted as soon as nothing is staked in it (TotalTokens == 0), i.e. exactly when its last
+			// delegator has undelegated and the unbonding entry is still pending.  A query that derives the denoms to
+			// look at from the registry loses those entries although the end blocker will pay them.
+			for _, k := range []string{"keeper.Keeper.GetUnbondings", "keeper.Keeper.GetUnbondingsByDenomAndDelegator", "keeper.Keeper.GetUnbondingsByDelegator",
+				"keeper.QueryServer.AllianceRedelegations", "keeper.QueryServer.AllianceRedelegationsByDelegator"} {
+				fn := e.Fn(k)
+				if fn == nil {
+					continue
+				}
+				var hit ssa.Instruction
+				for _, f := range e.Reach(fn) {
+					for _, c := range CallsTo(f, "keeper.Keeper.GetAllAssets", "keeper.Keeper.GetAssetByDenom") {
+						hit = c
+					}
+				}
+				if hit != nil {
+					r.Bad(k, "entries enumerated independently of the asset registry", "the query reaches the asset registry ("+CalleeKey(hit.(ssa.CallInstruction).Common())+") to decide which entries to return: pending entries of a deleted alliance (deletion only needs a zero staked total, which is the state right after the last delegator undelegated) are not reported although end-of-block processing pays them", nil, r.P(hit))
+				} else {
+					r.OK(k, "entries enumerated independently of the asset registry", "no registry lookup in the query's call tree", e.Pos(fn.Pos()))
+				}
+			}
+		}})
+
+	register(&Rule{ID: "C20.suffixexact", Props: []string{"C20"}, Floor: 2,
+		Doc: "index keys selected by a byte suffix are confirmed by the denom parsed from the key",
+		Run: func(e *Engine, r *RuleRun) {
+			// key = prefix | lp(validator) | lp(time) | lp(denom) | lp(delegator).  bytes.HasSuffix(key, lp(denom)|lp(delegator))
+			// is not exact: the length-prefix byte of a 46-character denom is '/', a legal denom character, so the key of
+			// "x/"+D also ends with D's suffix.  Exact selection needs the denom parsed from the front of the key.
+			for _, k := range []string{"keeper.Keeper.GetUnbondings", "keeper.Keeper.GetUnbondingsByDenomAndDelegator"} {
+				fn := r.Need(k)
+				if fn == nil {
+					continue
+				}
+				fa := e.FA(fn)
+				var apps []ssa.Instruction
+				for _, c := range Calls(fn) {
+					if CalleeKey(c.Common()) == "builtin.append" {
+						apps = append(apps, c)
+					}
+				}
+				suf := CallsTo(fn, "bytes.HasSuffix")
+				if len(suf) == 0 {
+					r.OK(k, "suffix-selected index keys are confirmed by the parsed denom", "no suffix matching in this query", e.Pos(fn.Pos()))
+					continue
+				}
+				ok := len(apps) > 0
+				for _, a := range apps {
+					okA := fa.HasGuard(a, func(g Guard) bool {
+						if g.Cond.Op != "binop" || (g.Cond.Name != "==" && g.Cond.Name != "!=") {
+							return false
+						}
+						if (g.Cond.Name == "==") != g.Pos {
+							return false
+						}
+						x, y := g.Cond.Args[0], g.Cond.Args[1]
+						parsed := func(t *Term) bool {
+							return t.Op == "extract" && t.Name == "1" && t.Args[0].IsCall("types.ParseUnbondingIndexKeyForValidatorAndDenom")
+						}
+						return (parsed(x) && y.String() == "$denom") || (parsed(y) && x.String() == "$denom")
+					})
+					if !okA {
+						ok = false
+					}
+				}
+				r.Check(ok, k, "suffix-selected index keys are confirmed by the parsed denom", "every emitted entry is dominated by ParseUnbondingIndexKeyForValidatorAndDenom(key).denom == denom", "index keys are selected with bytes.HasSuffix(key, lp(denom)|lp(delegator)) only: the key of another denom whose tail happens to spell this suffix (the length byte of a 46-character denom is '/') is selected as well and the shared bucket's entry for the queried denom is returned once per such key", r.P(suf[0]))
+			}
+		}})
+
 	register(&Rule{ID: "C20.paginate", Props: []string{"C20"}, Floor: 6,
 		Doc: "paginated queries count every record under their scan prefix as a hit",
 		Run: func(e *Engine, r *RuleRun) {
